@@ -707,8 +707,15 @@ func isFreshExpr(e ast.Expr) bool {
 	case *ast.CompositeLit:
 		return true
 	case *ast.CallExpr:
-		if id, ok := x.Fun.(*ast.Ident); ok && id.Name == "new" {
-			return true
+		fun := x.Fun
+		switch f := fun.(type) {
+		case *ast.IndexExpr:
+			fun = f.X
+		case *ast.IndexListExpr:
+			fun = f.X
+		}
+		if id, ok := fun.(*ast.Ident); ok && (id.Name == "new" || strings.HasPrefix(id.Name, "New") || strings.HasPrefix(id.Name, "new")) {
+			return true // new(T) or a constructor of the own package: the result is not shared yet
 		}
 	}
 	return false
